@@ -684,8 +684,9 @@ def stepGet (r : Repo) (path : Path) (pl : Option (List Name)) (o : RetOpts := {
         | .ok x => (r, .inst { cls := st.inst.cls, path := p, props := x.1, quals := x.2 })
 
 /-- `c` is `target` or one of its (transitive) subclasses; walks up the superclass chain with fuel.
-    stands for pywbem_mock/_mainprovider.py: MainProvider._get_subclass_list_for_enums (which walks
-    down from `target`; both agree on class stores whose superclass links are closed and acyclic) -/
+    stands for pywbem_mock/_mainprovider.py: MainProvider._get_subclass_list_for_enums, which walks
+    down from `target`: that walk is mirrored in Model/StoreSubclass.lean and proved to select the same
+    classes (Proofs/Lemmas/StoreSubclass.lean, theorem C10_subclass_walk_down_is_up) -/
 def descends (cs : List Cls) : Nat → Name → Name → Bool
   | 0, c, target => nameEq c target
   | fuel + 1, c, target =>
